@@ -66,7 +66,7 @@ def plan(prop, tier, seed):
         # thorough tier: the newer workload families also run under AddressSanitizer (a tenth of the volume)
         extra = []
         for j in p["jobs"]:
-            if j.get("engine") == "e1" and "kind" not in j and any(t in j["label"] for t in ("CONSUME", "weakescape", "stale", "dropvariants", "ELIDE-consume", "deadclone", "layout")):
+            if j.get("engine") == "e1" and "kind" not in j and any(t in j["label"] for t in ("CONSUME", "weakescape", "stale", "dropvariants", "ELIDE-consume", "deadclone", "layout", "nodrop")):
                 if any(x["label"] == j["label"].replace("-e1", "-e2") for x in p["jobs"]):
                     continue
                 c = e2(j)
@@ -216,6 +216,7 @@ def plan_C03(q, seed):
         gen_job("nodrop", "WF", 40000 if q else 1000000, time_limit=15 if q else 150),
     ]
     jobs += [e3(fam_job("FULL", 100000, extra=["--max-n", "5"], lo=1 << 20), 30 if q else 600)]
+    jobs += [e2(gen_job("nodrop", "WF", 4000 if q else 100000, time_limit=15 if q else 150)), e3(gen_job("nodrop", "WF", 100000, lo=1 << 20), 20 if q else 300)]
     return {
         "jobs": jobs,
         "accept_foreign": [["C12", "sync"]],
